@@ -2,6 +2,7 @@ package main
 
 import (
 	"fmt"
+	"go/ast"
 	"go/constant"
 	"go/token"
 	"go/types"
@@ -406,6 +407,51 @@ var hostDependent = map[string]map[string]bool{
 	"runtime": {"GOOS": true},
 }
 
+// usedOnlyByHostDetection: d declares an unexported function of package avfs whose every reference in the module lies
+// inside the declaration of currentOSType or CurrentOSType (the one place that is allowed to look at the host).
+func usedOnlyByHostDetection(rc *RuleCtx, d ast.Decl) bool {
+	fd, ok := d.(*ast.FuncDecl)
+	if !ok || fd.Recv != nil || token.IsExported(fd.Name.Name) {
+		return false
+	}
+	p := rc.C.pkg("avfs")
+	obj := p.TypesInfo.Defs[fd.Name]
+	if obj == nil {
+		return false
+	}
+	var spans [][2]token.Pos
+	for _, file := range p.Syntax {
+		for _, dd := range file.Decls {
+			if n := declName(dd); n == "currentOSType" || n == "CurrentOSType" {
+				spans = append(spans, [2]token.Pos{dd.Pos(), dd.End()})
+			}
+		}
+	}
+	uses := 0
+	for _, pk := range []string{"avfs", "memfs", "orefafs", "memidm", "rofs", "basepathfs", "failfs", "osfs", "osidm", "test"} {
+		q := rc.C.pkg(pk)
+		if q == nil {
+			continue
+		}
+		for id, o := range q.TypesInfo.Uses {
+			if o != obj {
+				continue
+			}
+			uses++
+			in := false
+			for _, sp := range spans {
+				if pk == "avfs" && id.Pos() >= sp[0] && id.Pos() < sp[1] {
+					in = true
+				}
+			}
+			if !in {
+				return false
+			}
+		}
+	}
+	return uses > 0
+}
+
 func c17HostFree(rc *RuleCtx) {
 	for _, pk := range []string{"avfs", "memfs", "orefafs", "memidm", "rofs", "basepathfs", "failfs"} {
 		p := rc.C.pkg(pk)
@@ -442,6 +488,10 @@ func c17HostFree(rc *RuleCtx) {
 				cons := pk + "." + name + " host-free"
 				if pk == "avfs" && (name == "currentOSType" || name == "CurrentOSType") {
 					rc.good(cons, d.Pos(), "the host detection itself")
+					continue
+				}
+				if pk == "avfs" && len(hits) > 0 && usedOnlyByHostDetection(rc, d) {
+					rc.good(cons, d.Pos(), "part of the host detection: referenced only by the declaration of currentOSType / CurrentOSType")
 					continue
 				}
 				if len(hits) == 0 {
